@@ -192,14 +192,10 @@ func (c *Canary) knockDetector(ctx context.Context) {
 					return
 				}
 
-				// we have two timeouts, one to send notifications,
-				// one to remove the knock. This will detect portscans
-				// with a longer interval
-
-				// TODO(): make duration configurable
-				if k.Last.Add(time.Second * 60).After(now) {
-					defer knocks.Remove(k)
-				}
+				// a reported group is done, whatever its age: the timer only fires when no
+				// source has knocked for the quiet period, so a group may be older than a
+				// minute by then - it used to stay, and was reported again at every tick
+				defer knocks.Remove(k)
 
 				ports := make([]string, k.Knocks.Count())
 
